@@ -10,6 +10,7 @@ CONSTANTS
   FaultSites = {}
   MaxCtx = 2
   MaxDepth = 4
+  ChainToggleChains = {"inline", "inline2"}
   Variant = "as_found"
 SPECIFICATION SpecP
 VIEW view
